@@ -25,6 +25,7 @@ FAIL_STYLES = [['PUSH string "boom"', 'FAILWITH'],
                ['PUSH nat 1', 'DIP { PUSH string "boom" ; FAILWITH }'],
                ['PUSH nat 1', 'DIP { ' + ' ; '.join(['DROP'] * 8) + ' }'],
                ['PUSH nat 1', 'PUSH nat 2', 'DIP 2 { PUSH string "boom" ; FAILWITH }'],
+               ['PUSH nat 4', 'COMMIT'],            # the helper instruction itself is the failing one (COMMIT wants the result pair, not a nat)
                ['PUSH nat 3', 'PUSH address 0x05aabb']]     # a malformed optimized literal: the error carries bytes (execute() itself raises while reporting it)
 
 
